@@ -386,6 +386,25 @@ fn c18_helpers(v: &[Val]) -> Result<bool, String> {
     is("perceptron_update", a.perceptron_update(q.min(1.0), e, &b), Geonum::new_with_angle(a.mag + q.min(1.0) * e * b.mag, a.angle + Angle::new(-q.min(1.0) * e * sx / PI, 1.0)))?;
     Ok(true)
 }
+fn g_c18core(r: &mut Rng) -> Vec<Val> { let (a, b) = gen_geonum_pair(r); vec![Val::G(a), Val::G(b), Val::A(gen_angle(r))] }
+/// the helpers whose closed form is a single core operation, on the full core domain (zero magnitudes, blade histories, boundary shapes)
+fn c18_core(v: &[Val]) -> Result<bool, String> {
+    let a = v[0].g().unwrap(); let b = v[1].g().unwrap(); let x = v[2].a().unwrap();
+    let is = |what: &str, got: Geonum, want: Geonum| -> Result<(), String> { if same_geonum(&got, &want) { Ok(()) } else { Err(format!("{}: got {} expected {}", what, show_g(&got), show_g(&want))) } };
+    is("translate", a.translate(&b), a + b)?;
+    is("shear", a.shear(x), a.rotate(x))?;
+    is("view", a.view(&x, |t: &Angle| *t), a.rotate(x))?;
+    is("compose", a.compose(&b), a * b)?;
+    is("forward_pass", a.forward_pass(&b, &a), Geonum::new_with_angle(a.mag * b.mag + a.mag, a.angle + b.angle))?;
+    is("identity", a.activate(Activation::Identity), a)?;
+    let w = a.wedge(&b);
+    is("poynting_vector", a.poynting_vector(&b), Geonum::new_with_angle(w.mag / geonum::traits::electromagnetics::VACUUM_PERMEABILITY, w.angle))?;
+    let ct = a.angle.grade_angle().cos();
+    is("relu", a.activate(Activation::ReLU), Geonum::new_with_angle(if ct > 0.0 { a.mag } else { 0.0 }, a.angle))?;
+    is("tanh", a.activate(Activation::Tanh), Geonum::new_with_angle(a.mag * ct.tanh(), a.angle))?;
+    is("sigmoid", a.activate(Activation::Sigmoid), Geonum::new_with_angle(a.mag / (1.0 + (-ct).exp()), a.angle))?;
+    Ok(true)
+}
 fn c19_laws(v: &[Val]) -> Result<bool, String> {
     let (a, b, c, d) = (v[0].g().unwrap(), v[1].g().unwrap(), v[2].g().unwrap(), v[3].g().unwrap());
     let x = v[4].a().unwrap(); let q = v[6].f().unwrap();
@@ -469,6 +488,7 @@ pub fn clauses3() -> Vec<Clause> {
         Clause { prop: "C17", name: "coll", sig: "LGFFFA", gen: g_coll, check: c17_coll },
         Clause { prop: "C17", name: "seq", sig: "LL", gen: g_collseq, check: c17_seq },
         Clause { prop: "C18", name: "helpers", sig: "GGGGAFF", gen: g_c18, check: c18_helpers },
+        Clause { prop: "C18", name: "core", sig: "GGA", gen: g_c18core, check: c18_core },
         Clause { prop: "C19", name: "laws", sig: "GGGGAFF", gen: g_c18, check: c19_laws },
         Clause { prop: "C19", name: "area", sig: "GGGGGA", gen: g_quad, check: c19_area },
     ]
